@@ -1,0 +1,26 @@
+//go:build verif && linux
+
+package tun
+
+import (
+	"os"
+
+	"golang.zx2c4.com/wireguard/conn"
+)
+
+// Export for the verification harness of property C17 (build tag verif only).  Add-only.
+
+// VerifNewReadTun returns a NativeTun whose Read takes one datagram from f
+// through the virtio-net header path (vnetHdr on, readBuff as the real device
+// has it, batch size as CreateTUN sets it after a successful TUNSETOFFLOAD)
+// and hands it to handleVirtioRead.  f is typically one end of a SOCK_DGRAM
+// socketpair standing in for /dev/net/tun (one packet per read(), silently
+// truncated to the reader's buffer); only Read and BatchSize may be called on
+// the result (no netlink socket, no event or error channels); close f yourself.
+func VerifNewReadTun(f *os.File) *NativeTun {
+	return &NativeTun{
+		tunFile:   f,
+		vnetHdr:   true,
+		batchSize: conn.IdealBatchSize,
+	}
+}
